@@ -109,8 +109,10 @@ class Raw:
     """unit-local text: spec functions, lemmas (proved) or assumed contracts (trusted=True)"""
     kind = "raw"
 
-    def __init__(self, text, mod=None, trusted=None, name=None):
+    def __init__(self, text, mod=None, trusted=None, name=None, file=None, impl=None):
         self.text, self.mod, self.trusted, self.name = text, mod, trusted, name
+        # when file+impl are given the text is placed INSIDE that impl block (e.g. the `spec fn` of a trait impl)
+        self.file, self.impl = file, impl
 
 
 class Unit:
